@@ -19,5 +19,10 @@ for r in rres:
     for w in r['widening']:
         if f"{r['version']}|{r['base']}|{w['derived']}" not in inst: inst[f"redefine:{r['version']}|{r['base']}|{w['derived']}|{w['top']}"] = w['word']; nr += 1
 print(nr, 'redefinition-only instances')
+# a sequence over some branches of a choice (own family, own keys)
+ns = 0
+for ver in ('1.0', '1.1'):
+    for w in C14.eval_seq_over_choice(ver)[1]: inst[w['key']] = w['word']; ns += 1
+print(ns, 'sequence-over-choice instances')
 json.dump(inst, open(os.path.join(HERE, 'baseline', 'C14_instances.json'), 'w'), indent=0, sort_keys=True)
 print(len(inst), 'instances;', sum(r['accepted'] for r in res), 'accepted restrictions;', {v: sum(1 for k in inst if k.startswith(v)) for v in ('1.0', '1.1')})
